@@ -15,8 +15,17 @@ def execute(case):
           "raised": "", "timeout": False, "steps_known": False, "steps": [], "arities": [], "cover_again": [],
           "check_isolated": len({v for e in edges for v in e}) <= 12}
     g = gcmpy.EECC()
-    for e in edges:
-        g.add_edge(e)
+    feed = case.get("feed", "add_edge")
+    if feed == "add_edges_from":          # the bulk loader of the Network base class, with the documented list of tuples
+        g.add_edges_from(list(edges))
+    elif feed == "graph":                 # a ready-made networkx graph handed over through the G property
+        import networkx as nx
+        H = nx.Graph()
+        H.add_edges_from(edges)
+        g.G = H
+    else:
+        for e in edges:
+            g.add_edge(e)
     pre = case.get("pre")
     if pre:
         # history: the same EECC object already produced a cover under another size bound; its edges are added again
@@ -151,7 +160,7 @@ def run(chk):
                (8, 9), (8, 13), (9, 10), (9, 11), (9, 13), (10, 11), (11, 12), (12, 13), (13, 14)]
     for m0 in (2, 3, 4, 6):
         for s in range(3):
-            traces.append(execute({"edges": fixture, "m0": m0, "rng": ("seed", rng.randrange(1 << 30))}))
+            traces.append(execute({"edges": fixture, "m0": m0, "rng": ("seed", rng.randrange(1 << 30)), "feed": ["add_edge", "add_edges_from", "graph"][len(traces) % 3]}))
     def union_of_cliques(parts):
         es = set()
         for p in parts:
@@ -168,7 +177,7 @@ def run(chk):
         es = [(a, b) for a, b in itertools.combinations(range(n), 2) if rng.random() < p]
         if not es:
             continue
-        traces.append(execute({"edges": es, "m0": rng.choice([2, 2, 3, 4, 6]), "rng": ("seed", rng.randrange(1 << 30)), "watchdog": 120}))
+        traces.append(execute({"edges": es, "m0": rng.choice([2, 2, 3, 4, 6]), "rng": ("seed", rng.randrange(1 << 30)), "watchdog": 120, "feed": ["add_edge", "add_edges_from", "graph"][i % 3]}))
     for t in traces:
         t.pop("trail", None)
     if und:
